@@ -179,6 +179,53 @@ def tour_oracle(fit, n, script, res, ts):
     return None, None
 
 
+def wide_rows(which=None):
+    """Fitness vectors in types wider than a double -- Python ints / np.int64 above 2**53 that differ by 1, np.longdouble values that
+    differ below one double ulp: the comparisons of a round are made on the values as given (oracle only: outside the binary64 model)."""
+    ld = np.longdouble
+    e = ld(2) ** -60
+    fams = {
+        'bigint-list': [2 ** 53 + 2, 2 ** 53 + 1, 2 ** 53, 2 ** 53 + 3],
+        'bigint-int64-array': np.array([2 ** 60 + 1, 2 ** 60, 2 ** 60 + 2], dtype=np.int64),
+        'longdouble-array': np.array([ld(1) + 2 * e, ld(1) + e, ld(1), ld(1) + 3 * e], dtype=ld),
+        'longdouble-list': [ld(5) + e, ld(5), ld(5) + 2 * e],
+    }
+    ts = int(const.TOURNAMENT_SIZE)
+    out = []
+    for name, fit in fams.items():
+        if which and name != which:
+            continue
+        L = len(fit)
+        n = 4
+        script = [(3 * k + k // ts) % L for k in range(n * ts)]
+        used = []
+
+        def choice(a, *args, **kw):
+            j = script[len(used)]
+            used.append(j)
+            return np.arange(a)[j] if isinstance(a, (int, np.integer)) else np.asarray(a)[j]       # what np.random.choice hands back: an array element
+        with Patch('choice', choice):
+            try:
+                sel = [int(v) for v in gen.tournament_selection(fit, n)]
+            except Exception as ex:  # noqa: BLE001
+                out.append({'okey': 'tournament:wide-type:raises', 'family': name,
+                            'oracle': 'tournament_selection over %s raised %s: %s' % (name, type(ex).__name__, str(ex)[:120])})
+                continue
+        msg = None
+        for r_, i in enumerate(sel):
+            drawn = script[r_ * ts:(r_ + 1) * ts]
+            m = min(fit[j] for j in drawn)
+            first = [k for k in range(L) if fit[k] == m][0]
+            if i != first:
+                msg = ('%s: round %d drew positions %s, the minimum of their fitnesses is first held at position %d, selected position %d '
+                       '(the values differ by less than a double can tell apart)' % (name, r_, drawn, first, i))
+                break
+        if len(sel) != n:
+            msg = '%s: %d indices for n = %d' % (name, len(sel), n)
+        out.append({'okey': 'tournament:wide-type' if msg else None, 'family': name, 'oracle': msg})
+    return out
+
+
 def tour_cases():
     r = hlib.rng('c18tour')
     ts = int(const.TOURNAMENT_SIZE)
@@ -577,6 +624,10 @@ def replay(rp):
             const.TOURNAMENT_SIZE = orig
         k, msg = tour_oracle(fit, c['n'], c['script'], res, ts)
         return {'res': res, 'oracle': msg, 'fails': bool(k), 'row': dict(c, res=res, ts=ts)}
+    if kind == 'tour_wide':
+        rows = wide_rows(c.get('family'))
+        bad = [x for x in rows if x['oracle']]
+        return {'rows': rows, 'oracle': bad[0]['oracle'] if bad else None, 'fails': bool(bad)}
     if kind == 'pairwise':
         res = run_pairwise(c['vals'], c['kind'])
         k, msg = pair_oracle(c['vals'], res)
@@ -655,7 +706,7 @@ def main():
         hlib.emit(replay(p['replay']))
         return
     brows, bviol = bern_cases()
-    hlib.emit({'bern': brows, 'bern_mono': bviol, 'tour': tour_cases(), 'pair': pair_cases(), 'levy': levy_cases(),
+    hlib.emit({'bern': brows, 'bern_mono': bviol, 'tour_wide': wide_rows(), 'tour': tour_cases(), 'pair': pair_cases(), 'levy': levy_cases(),
                'wrappers': wrapper_probe(), 'real': real_numpy(), 'ts': int(const.TOURNAMENT_SIZE)})
 
 
